@@ -2,7 +2,6 @@
 evidence, print VIOLATION / KNOWN-FINDING lines, choose the exit code (DESIGN.md 3, 7)."""
 import hashlib
 import json
-import multiprocessing as mp
 import os
 import re
 import sys
@@ -59,6 +58,80 @@ def _worker(i):
                    error="%s: %s\n%s" % (type(e).__name__, e, traceback.format_exc()[-1500:]))
     out["wall"] = time.time() - t0
     return i, out
+
+
+def _pmap(fn, n, jobs, dead, watchdog):
+    """run fn(i) -> (i, result) for i < n in forked children, at most `jobs` alive, one child per item.  A child that dies
+    without delivering (a segfault inside the freshly built library, an OOM kill) or outlives the watchdog yields
+    dead(i, reason) instead of hanging the run (multiprocessing.Pool silently loses the item of a killed worker)."""
+    import pickle
+    import select
+    import signal
+    pending, live = list(range(n)), {}
+    while pending or live:
+        while pending and len(live) < jobs:
+            i = pending.pop(0)
+            r, w = os.pipe()
+            sys.stdout.flush()
+            sys.stderr.flush()
+            pid = os.fork()
+            if pid == 0:
+                try:
+                    os.close(r)
+                    for fd in live:
+                        os.close(fd)
+                    try:
+                        data = pickle.dumps(fn(i))
+                    except BaseException as e:  # noqa
+                        data = pickle.dumps(dead(i, "child raised %s: %s" % (type(e).__name__, e)))
+                    with os.fdopen(w, "wb") as f:
+                        f.write(data)
+                    sys.stdout.flush()
+                    sys.stderr.flush()
+                finally:
+                    os._exit(0)
+            os.close(w)
+            live[r] = [pid, i, bytearray(), time.time()]
+        ready, _, _ = select.select(list(live), [], [], 1.0)
+        now = time.time()
+        for fd in list(live):
+            pid, i, buf, t0 = live[fd]
+            if fd in ready:
+                chunk = os.read(fd, 1 << 20)
+                if chunk:
+                    buf += chunk
+                    continue
+                del live[fd]
+                os.close(fd)
+                _, status = os.waitpid(pid, 0)
+                res = None
+                if buf:
+                    try:
+                        res = pickle.loads(bytes(buf))
+                    except Exception:
+                        res = None
+                if res is None:
+                    why = ("killed by signal %d" % os.WTERMSIG(status)) if os.WIFSIGNALED(status) else "exit status %d" % os.WEXITSTATUS(status)
+                    res = dead(i, "worker process died without a result (%s)" % why)
+                yield res
+            elif now - t0 > watchdog:
+                del live[fd]
+                os.close(fd)
+                try:
+                    os.kill(pid, signal.SIGKILL)
+                    os.waitpid(pid, 0)
+                except OSError:
+                    pass
+                yield dead(i, "worker process exceeded the %d s watchdog and was killed" % watchdog)
+
+
+def _dead_task(i, why):
+    return i, dict(task=_TASKS[i].name, records=[], paths=0, solver_time=0.0, error=why, wall=0.0)
+
+
+def _dead_replay(i, why):
+    tname, rs = _SATS_BY_TASK[i]
+    return i, [(dict(confirmed=False, detail="replay child: " + why), None) for _ in rs]
 
 
 _SATS_BY_TASK = None
@@ -148,11 +221,10 @@ def run_property(prop, tier, seed=0, only=None, jobs=None):
         prop.prepare(tier)       # loads symbolic modules before forking so workers inherit them
     jobs = jobs or int(os.environ.get("VERIF_JOBS", "0")) or min(16, os.cpu_count() or 1)
     results = [None] * len(tasks)
-    if jobs > 1 and len(tasks) > 1:
-        ctx = mp.get_context("fork")
-        with ctx.Pool(min(jobs, len(tasks))) as pool:
-            for i, out in pool.imap_unordered(_worker, range(len(tasks)), chunksize=1):
-                results[i] = out
+    watchdog = int(os.environ.get("VERIF_TASK_WATCHDOG", "1800" if tier == "quick" else "7200"))
+    if not os.environ.get("VERIF_INPROC"):
+        for i, out in _pmap(_worker, len(tasks), max(1, min(jobs, len(tasks))), _dead_task, watchdog):
+            results[i] = out
     else:
         for i in range(len(tasks)):
             results[i] = _worker(i)[1]
@@ -194,9 +266,7 @@ def run_property(prop, tier, seed=0, only=None, jobs=None):
         from . import replaylibs
         replaylibs.build(with_fft=bool(getattr(prop, "NEEDS_FFT", False)))
         idxs = list(range(len(groups)))
-        ctx = mp.get_context("fork")
-        with ctx.Pool(max(1, min(jobs, len(idxs)))) as pool:
-            got = dict(pool.imap_unordered(_replay_group, idxs, chunksize=1))
+        got = dict(_pmap(_replay_group, len(idxs), max(1, min(jobs, len(idxs))), _dead_replay, watchdog))
         outs = [got[i] for i in idxs]
     for (tname, rs), res in zip(groups, outs):
         for r, (rp, kid) in zip(rs, res):
